@@ -351,6 +351,7 @@ def run_property(pid, tier, only=None, jobs=None, write_evidence=True, cube_filt
           rc = _replay_in_child(pool_ctx=ctx, path=path)
         if rc == 0:
           artefacts.append(f'{ob.name}/{cube.tag}: candidate {cex!r} does not reproduce without CrossHair')
+          log(f'[{pid}] ARTEFACT {artefacts[-1]} :: {res.get("message", "")[:300]}')
           row['status'] = 'inconclusive(engine-artefact)'
           total['obligations'] += 1
           total['inconclusive'] += 1
